@@ -105,6 +105,7 @@ func cacheChildMain(args []string) {
 	archs := fl.String("archs", "x86_64", "comma separated")
 	keyF := fl.String("key", "", "public key file (a fixed path: it ends up in /etc/apko.json)")
 	procs := fl.Int("procs", 1, "GOMAXPROCS")
+	filesRev := fl.Int("files-rev", -1, "the apk files are those of this revision (default: the GET revision)")
 	pause := fl.String("pause", "", "<marker prefix>:<n> pause at the n-th marker with that prefix until the go file exists")
 	pauseGo := fl.String("pause-go", "", "file whose existence releases the paused build")
 	fl.Parse(args)
@@ -162,13 +163,25 @@ func cacheChildMain(args []string) {
 	})
 	// every apk of every revision stays downloadable (a real repository keeps old versions around);
 	// the index is the revision's.
+	// Where one path has different content in different revisions (a rebuilt package), the repository's
+	// files are those of revision fr: the latest revision <= fr that has the path wins.
+	fr := *filesRev
+	if fr < 0 || fr >= len(w.Revs) {
+		fr = *getRev
+	}
 	files := map[string][]byte{}
-	for _, r := range w.Revs {
-		for k, v := range r {
+	addRev := func(i int) {
+		for k, v := range w.Revs[i] {
 			if !strings.HasSuffix(k, "APKINDEX.tar.gz") {
 				files[k] = v
 			}
 		}
+	}
+	for i := len(w.Revs) - 1; i > fr; i-- {
+		addRev(i)
+	}
+	for i := 0; i <= fr; i++ {
+		addRev(i)
 	}
 	for k, v := range w.Revs[*getRev] {
 		if strings.HasSuffix(k, "APKINDEX.tar.gz") {
@@ -278,6 +291,7 @@ func init() {
 }
 
 type childOpts struct {
+	FilesRev int   // 1 + revision of the apk files (0: the GET revision)
 	Pause   string // "<marker prefix>:<n>"
 	World   string
 	Key     string
@@ -320,6 +334,9 @@ func startChild(scratch string, id int, o childOpts) func() childRes {
 	}
 	if o.Stall != "" {
 		args = append(args, "--stall", o.Stall)
+	}
+	if o.FilesRev > 0 {
+		args = append(args, "--files-rev", fmt.Sprint(o.FilesRev-1))
 	}
 	pg := filepath.Join(scratch, fmt.Sprintf("go-%d", id))
 	os.Remove(pg)
@@ -518,6 +535,13 @@ func abstractCache(dir string, k *cacheKnown) string {
 			kind := "R"
 			if isLink {
 				kind = "L"
+			}
+			if ok && desc != "D" {
+				// the content this name identifies, when that is what the file holds (byte-identical sections
+				// of two apks have two content ids)
+				if b, err := os.ReadFile(p); err == nil && bytes.Equal(b, k.contents[cid]) {
+					desc = fmt.Sprintf("F%d", cid)
+				}
 			}
 			if ok {
 				toks = append(toks, fmt.Sprintf("A%d=%s%s", cid, kind, desc))
